@@ -87,6 +87,7 @@ type Exec struct {
 	unboxed     map[string]Val            // interface values (tag|payload) -> the value that was boxed
 	varargs     map[string]map[int]Val    // varargs arrays (by reference symbol) -> values stored per index
 	boxed       map[string]Val  // slices converted to interface values (sort.Sort arguments), by payload symbol
+	matched     map[int]bool // call-site clauses (by index) whose pattern selected at least one site
 	siteAlias   string // interface-method alias of the call site being processed
 	constrained map[string]bool // fresh call results that a branch has already tested on this run
 	lenView  *HeapView // heap view for len() of maps inside contract expressions (nil = current)
@@ -283,6 +284,14 @@ func (x *Exec) verify() {
 	fr.entryView = x.entry
 	x.run(st)
 	x.wg.Wait()
+	// vacuity: a call-site assertion whose pattern selects no call site asserts nothing
+	if x.aborted == "" {
+		for k, ca := range x.fc.Calls {
+			if !ca.Forbid && !x.matched[k] {
+				x.unsupported(fmt.Sprintf("call-site clause %q selects no %s site in %s (pattern %s)", labelOr(ca.Clause.Label, k), ca.Pattern.Kind, x.fname, ca.Pattern.Src))
+			}
+		}
+	}
 }
 
 func (x *Exec) newFrame(st *State, fn *ssa.Function, fc *FuncContract, args []Val, binds []Val) *Frame {
